@@ -104,6 +104,7 @@ def _backend_files(crate):
 _reg(Group("v4", gen=_gen_backend(_backend_files("paseto-v4")), stubbing=True))
 _reg(Group("v3", gen=_gen_backend(_backend_files("paseto-v3")), stubbing=True))
 _reg(Group("v2", gen=_gen_backend(_backend_files("paseto-v2")), stubbing=True))
+_reg(Group("v1", gen=_gen_backend(_backend_files("paseto-v1")), stubbing=True))
 _reg(Group("v3awslc", gen=_gen_backend(_backend_files("paseto-v3-aws-lc")), stubbing=True))
 _reg(Group("v4sodium", gen=_gen_backend(_backend_files("paseto-v4-sodium")), stubbing=True))
 
@@ -285,8 +286,9 @@ def l2_backend(name, group, aad, sizes, quick=True, paserk=True, pke=True, publi
                                 doc="%s PBKW: tamper class %s must be rejected" % (name, n[10:])))
         for n in ("pw_unwrap_arbitrary_n0", "pw_unwrap_arbitrary_below", "pw_unwrap_arbitrary_above"):
             ln = {"n0": 0, "below": sizes["pw_over"] - 1, "above": sizes["pw_over"] + 1}[n.rsplit("_", 1)[1]]
-            out["C04"].append(H(group, P + n, q if n.endswith("_below") else "t", timeout=1500, mem=14, mode="full", replay="native:arbitrary_len", schema=[],
-                                replay_args={"backend": name, "op": "pw", "n": ln}, doc="%s: get_params + pw_unwrap_key on arbitrary bytes of length %d" % (name, ln)))
+            out["C04"].append(H(group, P + n, q if n.endswith("_above") else "t", timeout=1500, mem=14, mode="full", replay="native:pw_params" if ln else "native:arbitrary_len",
+                                schema=[("pass", "bytes:1"), ("blob", "bytes:%d" % ln)] if ln else [],
+                                replay_args={"backend": name, "op": "pw", "n": ln}, doc="%s: get_params + pw_unwrap_key on arbitrary bytes of length %d (above the minimum: every parameter block reaches the KDF parameter validation)" % (name, ln)))
     if pke:
         out["C05"].append(H(group, P + "pke_roundtrip_", q, timeout=1800, mem=14, mode="lean", replay="native:pke", schema=[],
                             replay_args={"backend": name, "w": 255, "out_len": sizes["pke_len"], "loops": sizes.get("pke_loops", 300)},
@@ -443,7 +445,7 @@ _pae = [H("core_units", "pae::" + n, t, timeout=to, mem=14, doc=d) for n, t, to,
     ("pae_n8", "t", 1800, "N=8 with multi-fragment pieces"),
     ("pae_n5_local_small", "qt", 900, "N=5 local shape, fragment lengths 0..2 (quick variant)"),
     ("pae_n4_public_small", "qt", 900, "N=4 public shape, fragment lengths 0..2 (quick variant)"),
-    ("pae_vec_bytes", "qt", 1800, "Vec<u8> writer receives exactly the spec's bytes (2 pieces, 3+1 fragments, symbolic contents)"),
+    ("pae_vec_bytes", "t", 2400, "Vec<u8> writer receives exactly the spec's bytes (2 pieces, 3+1 fragments, symbolic contents)"),
     ("pae_boundary_shift", "t", 1800, "the same 3 bytes split differently between message|footer|assertion always encode differently")]]
 PROPS["C15"] = Prop(
     "C15", _pae,
@@ -559,6 +561,11 @@ _vs = l2_backend("v4-sodium", "v4sodium", True, {"secret_len": 64, "pke_len": 96
 # PKE ~10 min, PBKW >10 min / >16 GB -> PBKW round-trip and tamper harnesses are thorough-only
 _PBKW_T = ["pw_roundtrip", "pw_tamper", "pw_default_must"]
 _demote(_v3, ["local_roundtrip_m3_f2", "local_tamper_payload_bit", "public_tamper_payload_bit", "local_rng_fail", "public_rng_fail", "pie_rng_fail", "pw_rng_fail", "nonce_is_draw", "pie_tamper_w0", "local_unseal_arbitrary_min"])
+_x1 = {"C16": [H("v1", "proofs::pw_rng_fail_closed_at0", "t", timeout=900, mode="lean", replay="native:rng_fail", schema=[], replay_args={"backend": "v1", "op": "pw", "at": 0}, doc="v1 PBKW: failure of the salt draw only => Err"),
+               H("v1", "proofs::pw_rng_fail_closed_at1", "t", timeout=900, mode="lean", replay="native:rng_fail", schema=[], replay_args={"backend": "v1", "op": "pw", "at": 1}, doc="v1 PBKW: failure of the nonce draw only => Err")],
+       "C13": [H("v1", "proofs::c13_id_transcript_lid", "t", timeout=600, mem=10, mode="full", replay="none", doc="v1 hash_key: the SHA-384 input is exactly k1 ‖ .lid. ‖ key text; id = first 33 bytes")]}
+_v1 = l2_backend("v1", "v1", False, {"secret_len": 48, "pke_len": 592, "nonce": 32, "tag": 48, "sig": 256, "pie_over": 80, "pw_over": 100}, pke=False, public=False, extra=_x1)
+_demote(_v1, [])
 _demote(_va, ["public_roundtrip_m3_f2", "local_tamper_payload_bit", "c04_ffi_ledger", "c04_public_key_usable_len1", "local_unseal_arbitrary_min"])
 _demote(_vs, ["local_roundtrip_m3_f2", "local_tamper_payload_bit", "public_tamper_payload_bit", "local_unseal_arbitrary_min"])
 _demote(_v2, ["local_roundtrip_m3_f2", "public_roundtrip_m3_f2", "local_tamper_payload_bit", "aad_refused", "local_tamper_w8", "local_rng_fail", "pie_roundtrip_local",
@@ -566,7 +573,7 @@ _demote(_v2, ["local_roundtrip_m3_f2", "public_roundtrip_m3_f2", "local_tamper_p
 _demote(_v4, ["c08_local_key_codec_n32", "c08_signing_key_codec", "c13_id_transcript_lid"] + ["local_roundtrip_m3_f2", "public_roundtrip_m3_f2", "local_tamper_payload_bit", "local_tamper_w8", "local_tamper_w10", "local_tamper_w6", "local_tamper_w14",
               "public_tamper_payload_bit", "public_tamper_w8", "public_tamper_w12", "rng_fail", "nonce_is_draw", "pie_roundtrip_local", "pie_tamper_w0", "pie_tamper_w1",
               "pke_roundtrip", "pke_tamper_w0", "local_unseal_arbitrary_below", "local_unseal_arbitrary_min", "public_unseal_arbitrary_below", "pie_unwrap_arbitrary_below",
-              "pw_unwrap_arbitrary_below"])
+              "pw_unwrap_arbitrary_above"])
 for _p in ("C01", "C02", "C04", "C05", "C06", "C12", "C16"):
     _have = {(h.group, h.name) for h in PROPS[_p].harnesses}
     PROPS[_p].harnesses += [h for h in _collect(_p) if (h.group, h.name) not in _have]
@@ -587,6 +594,8 @@ PROPS["C03"] = Prop(
     "C03", [
         H("v3", "proofs::c03_local_ctr_counter_128bit", "qt", timeout=1800, mem=14, mode="lean", replay="native:ctr_pbkw", schema=[], replay_args={},
           doc="paseto-v3 local: with key, nonce (hence derived IV) and a 17-byte message symbolic, the two blocks fed to AES are IV and IV+1 mod 2^128 (full-width big-endian counter, as OpenSSL/aws-lc)"),
+        H("v1", "proofs::c03_local_ctr_counter_128bit", "t", timeout=2400, mem=14, mode="lean", replay="native:ctr_pbkw", schema=[], replay_args={},
+          doc="paseto-v1 local: the two blocks fed to AES for a 17-byte message are IV and IV+1 mod 2^128"),
         H("v4", "proofs::c03_local_transcript", "qt", timeout=1500, mem=14, mode="lean", replay="none",
           doc="paseto-v4 local: for every key/nonce/message/footer/assertion the four primitive calls (two keyed BLAKE2b derivations with the spec's domain strings, XChaCha20 keyed Ek/n2, BLAKE2b-MAC over PAE(h,n,c,f,i)) and the token layout n‖c‖t are exactly the spec's"),
     ],
@@ -633,7 +642,7 @@ PROPS["C13"] = Prop(
 
 PROPS["C10"] = Prop(
     "C10", [H("core_units", "api::c10_header_table", "qt", timeout=600, mode="full", doc="the eleven kind headers read from paseto-core's KeyType/SealingKey constants all start and end with '.', and none is a prefix of another (PKE kinds deliberately share .public./.secret.)"),
-            H("core_units", "api::c10_no_string_accepted_twice", "t", timeout=3000, mem=20, mode="nomem", doc="one symbolic 16-byte string offered to eight PASERK parsers (k4 and k3; local, secret, public, local-pw, secret-pw, seal): at most one accepts")]
+            H("core_units", "api::c10_no_string_accepted_twice", "t", timeout=3000, mem=20, mode="nomem", doc="one symbolic 12-byte string offered to six PASERK parsers (k4 and k3; local, secret, public, seal): at most one accepts")]
     + [h for h in PROPS["C09"].harnesses if h.name.startswith("api::") and any(x in h.name for x in ("keytext_local_t3", "keytext_secret_t3", "keytext_public_t2", "keytext_v3_local_t3", "pie_local_t3", "pw_local_t3", "seal_t3", "token_p4_nodot", "keyid_lid_44"))]
     + [h for h in _collect("C08") if "local_key_codec" in h.name or "wrong_len" in h.name]
     + [h for h in _collect("C06") if "relabel" in h.name],
